@@ -25,8 +25,11 @@ REPO = Path(os.environ.get("VERIF_REPO", "/repo"))
 SRC = REPO / "src"
 PKG = SRC / "octave_mcp"
 VERIF = Path(__file__).resolve().parent.parent
-EVIDENCE_DIR = VERIF / "evidence"
-REPLAY_DIR = VERIF / "replay"
+# experiments on patched / scratch trees (tools/try_seed.sh, VERIF_REPO=...) set VERIF_SCRATCH_OUT so that they never overwrite
+# the evidence and replay files of the registered checks; the registered commands do not set it
+_OUT = Path(os.environ["VERIF_SCRATCH_OUT"]) if os.environ.get("VERIF_SCRATCH_OUT") else VERIF
+EVIDENCE_DIR = _OUT / "evidence"
+REPLAY_DIR = _OUT / "replay"
 KNOWN_FINDINGS = VERIF / "known_findings.jsonl"
 
 PROVED_TIERS = ("P", "R", "F", "L")
